@@ -1636,6 +1636,12 @@ def _rewrite_cache_uses(fn, container):
         uses.append((n, par, kind, cid))
     if not any(k in ("member", "get", "setdefault", "load") for (_n, _p, k, _c) in uses):
         return False
+    # a memo: the function that looks a value up is the one that stores it.  A table that another method fills is state, not a cache of
+    # this function -- its lookups are left as they are
+    for cid_ in {c_ for (_n, _p, _k, c_) in uses}:
+        kinds_ = {k for (_n, _p, k, c_) in uses if c_ == cid_}
+        if kinds_ & {"member", "get", "load"} and not kinds_ & {"store", "setdefault"}:
+            return False
     counter = [0]
     temps = {}          # (container id, dump of key) -> temp name
 
